@@ -15,7 +15,7 @@ AtomChoices == <<"1", "2", "3">>
 \* sequences of <<key, atom>>, in call order; 4 and 5 are one dict written in two orders
 OptChoices == <<<<>>, <<<<"tag", "A">>>>, <<<<"tag", "B">>>>,
                <<<<"tag", "A">>, <<"mem", "1">>>>, <<<<"mem", "1">>, <<"tag", "A">>>>>>
-ExpoChoices == <<<<>>, <<<<"lim", "1">>>>, <<<<"tag", "B">>>>>>
+ExpoChoices == <<<<>>, <<<<"tag", "B">>>>, <<<<"lim", "1">>>>>>
 Names == {NameChoices[k] : k \in 1..NNames}
 Atoms == {AtomChoices[k] : k \in 1..NAtoms}
 OptSeqs == {OptChoices[k] : k \in 1..NOpts}
